@@ -149,6 +149,32 @@ def judge_c04(y, ref, exact, check_dtype, out=None):
         return ("compute-raise", E.exc_sig(e), f"{type(e).__name__}: {str(e)[:200]}")
     if (y.name, y.chunks, y.dtype, y.__dask_keys__()) != (name0, chunks0, dtype0, keys0):
         return ("meta-changed", "after-compute", "name/chunks/dtype/keys changed after optimize()+compute()")
+    return _closed_after_update(y, out)
+
+
+def _closed_after_update(y, out):
+    """History: keys and graph of a collection were handed out, then it is
+    updated in place; the advertised keys must still be the (name, *block)
+    grid of the NEW name and be defined by the new graph."""
+    if y.ndim < 1 or y.dtype.kind != "f" or not y.shape[0] or any(isinstance(s, float) and s != s for dim in y.chunks for s in dim):
+        return None
+    for uname, upd in (("setitem", lambda z: z.__setitem__(slice(0, 1), -1.0)), ("iadd", lambda z: z.__iadd__(3.0))):
+        z = G.fresh(y)
+        try:
+            z.__dask_keys__(), z.__dask_graph__()
+            z2 = upd(z)
+            z = z if z2 is None else z2
+            keys = z.__dask_keys__()
+            dsk = dict(z.__dask_graph__())
+        except Exception:  # noqa: BLE001  (a refused / failing update is C11's business)
+            continue
+        if out is not None:
+            out.count("closure_after_update")
+        if keys != G.expected_key_grid(z.name, z.numblocks):
+            return ("keys-grid-after-update", uname, f"after handing out keys/graph and then {uname} in place, __dask_keys__() advertises {str(G.flat_keys(keys)[:2])} but the collection is named {z.name}")
+        missing = [k for k in G.flat_keys(keys) if k not in dsk]
+        if missing:
+            return ("output-key-missing-after-update", uname, f"after {uname} in place the graph does not define advertised key(s) {missing[:2]}")
     return None
 
 
